@@ -704,8 +704,8 @@ where
         F: Fn(&Self::Item, &Self::Item) -> Ordering + Sync,
     {
         self.reduce(|x, y| match compare(&x, &y) {
-            Ordering::Greater | Ordering::Equal => x,
-            Ordering::Less => y,
+            Ordering::Greater => x,
+            Ordering::Less | Ordering::Equal => y,
         })
     }
 
@@ -772,8 +772,8 @@ where
         F: Fn(&Self::Item) -> B + Sync,
     {
         self.reduce(|x, y| match get_key(&x).cmp(&get_key(&y)) {
-            Ordering::Greater | Ordering::Equal => x,
-            Ordering::Less => y,
+            Ordering::Greater => x,
+            Ordering::Less | Ordering::Equal => y,
         })
     }
 }
